@@ -1481,10 +1481,11 @@ def run_case(case, ctx: Ctx):
             raise
     with ctx.observing("state_dict.load"):
         sd = torch.load(io.BytesIO(saved["state_dict"]))
-        if case.get("legacy_constant_key") and any(k.endswith(".raw_constant") for k in sd):
+        legacy = {f"{n}.raw_constant" for n, m_ in dst.named_modules() if type(m_) is M.ConstantMean} & set(sd)
+        if case.get("legacy_constant_key") and legacy:
             # a state dict as written before ConstantMean.constant (*batch x 1) was renamed to raw_constant (*batch): the library registers a
             # load_state_dict pre-hook that converts it, so strict loading must succeed and give the same model
-            sd = type(sd)((k[: -len("raw_constant")] + "constant", t.unsqueeze(-1)) if k.endswith(".raw_constant") else (k, t) for k, t in sd.items())
+            sd = type(sd)((k[: -len("raw_constant")] + "constant", t.unsqueeze(-1)) if k in legacy else (k, t) for k, t in sd.items())
             ctx.label("legacy_constant_key")
         res = dst.load_state_dict(sd, strict=True)
         if res is not None:
